@@ -309,6 +309,10 @@ func (c *Ctx) zeroInitStruct(st *State, ref Term, t types.Type, depth int) {
 
 func (c *Ctx) execBlock(st *State, fr *Frame, b *ssa.BasicBlock, pred *ssa.BasicBlock) {
 	st.trace = append(st.trace, fmt.Sprintf("%d", b.Index))
+	if fr.depth == 0 && len(c.blockCovers[b]) < 12 {
+		// vacuity guard: every basic block of the function should be reachable under the contracts in force
+		c.blockCovers[b] = append(c.blockCovers[b], &Query{Obl: &Obl{Fn: c.Key, Kind: "cover", Name: c.Key + "/block-cover"}, PC: append([]string(nil), st.pc...), Goal: "false", NDecl: len(c.decls), Ctx: c, Trace: strings.Join(st.trace, ">")})
+	}
 	if li := fr.loops[b]; li != nil {
 		if !c.enterLoopHead(st, fr, li, pred) {
 			c.endPath()
